@@ -46,7 +46,10 @@ TypeCat == <<
   (*17*) <<Clp(2, 2), Aff(2, 2), Tr("linear"), Str("morton", 2), Arr(2, 2)>>,
   (*18*) <<Clp(2, 2), Aff(2, 2), Tr("nearest"), Str("morton", 2), Arr(4, 2)>>,
   (*19*) <<Aff(1, 4), Tr("nearest"), Str("strided", 1), Arr(4, 1)>>,
-  (*20*) <<Bkp(1, 2, 2, 2), Tr("linear"), Str("strided", 1), Arr(2, 2)>>
+  (*20*) <<Bkp(1, 2, 2, 2), Tr("linear"), Str("strided", 1), Arr(2, 2)>>,
+  \* configurations larger than 64 bytes (96 and 80): anything that reads or writes a configuration in pieces shows here
+  (*21*) <<Aff(3, 4), Tr("nearest"), Str("strided", 3), Arr(2, 1)>>,
+  (*22*) <<Aff(4, 2), Tr("linear"), Str("strided", 4), Arr(2, 1)>>
 >>
 NTypes == Len(TypeCat)
 
@@ -85,7 +88,8 @@ EmptyTypes == {1, 3, 8}
 Sizes(n, tid, v) == IF v = LargeV /\ tid \in LargeTypes THEN (IF n = 2 THEN <<17, 19>> ELSE <<7, 6, 8>>)
                     ELSE IF v = EmptyV /\ tid \in EmptyTypes THEN [i \in 1..n |-> IF i = 1 THEN 0 ELSE 2]
                     ELSE [i \in 1..n |-> 1 + (Rnd(tid, v, 50 + i) % 2) + (IF i = 1 THEN v % 2 ELSE 0)]     \* extents 1..3
-Product(s) == IF Len(s) = 0 THEN 1 ELSE IF Len(s) = 1 THEN s[1] ELSE IF Len(s) = 2 THEN s[1] * s[2] ELSE s[1] * s[2] * s[3]
+Product(s) == IF Len(s) = 0 THEN 1 ELSE IF Len(s) = 1 THEN s[1] ELSE IF Len(s) = 2 THEN s[1] * s[2] ELSE IF Len(s) = 3 THEN s[1] * s[2] * s[3]
+              ELSE s[1] * s[2] * s[3] * s[4]
 Pow2Ceil(x) == IF x <= 1 THEN 1 ELSE IF x <= 2 THEN 2 ELSE 4      \* (round_pow2(0) = 1 as coded)
 StorageCount(kind, s) == IF kind = "strided" THEN Product(s)
                          ELSE LET mx == IF Len(s) = 1 THEN s[1] ELSE IF s[1] >= s[2] THEN s[1] ELSE s[2] IN
